@@ -377,6 +377,37 @@ func init() {
 						errs++
 					}
 				}
+				// ... evaluations that FAIL, each goroutine for its own reason (its own unbound prefix / variable / function), through one
+				// shared settings slice with spare capacity: every goroutine gets the error of its own query
+				shared := append(make([]xsel.ContextApply, 0, 8), st...)
+				failing := func(k int) string {
+					q := []string{"//u%d:x", "$nosuch%d", "nofn%d(1)", "//*[u%d:y]"}[k%4]
+					fg, err := xsel.BuildExpr(fmt.Sprintf(q, r*10+k))
+					if err != nil {
+						return "build: " + err.Error()
+					}
+					o := execSafe(ctx, &fg, shared[:len(st)])
+					return fmt.Sprint(o.err, o.panic)
+				}
+				msgs := make([]string, gor)
+				wg = sync.WaitGroup{}
+				start = make(chan struct{})
+				for k := 0; k < gor; k++ {
+					wg.Add(1)
+					go func(k int) {
+						defer wg.Done()
+						<-start
+						msgs[k] = failing(k)
+					}(k)
+				}
+				close(start)
+				wg.Wait()
+				for k := 0; k < gor; k++ {
+					evals++
+					if msgs[k] != failing(k) {
+						wrong++
+					}
+				}
 				// ... and Unmarshal into struct types whose tags this process has never seen, by all goroutines at once
 				// (whatever Unmarshal remembers about tags or types is cold)
 				mk := func(i int) reflect.Type {
@@ -416,7 +447,7 @@ func init() {
 					}
 				}
 			}
-			writeTrace(map[string]any{"ev": "deepconc", "depth": 0, "goroutines": 2 * gor, "rounds": evals / (2 * gor), "evals": evals, "wrong": wrong, "errors": errs})
+			writeTrace(map[string]any{"ev": "deepconc", "depth": 0, "goroutines": 3 * gor, "rounds": evals / (3 * gor), "evals": evals, "wrong": wrong, "errors": errs})
 		default:
 			return 2
 		}
